@@ -2603,3 +2603,464 @@ func ruleNilGuardProtectsItsSubject(r *Report, rule string, pkgs ...string) {
 		undecidedf("nil-guard rule matched %d guards", n)
 	}
 }
+
+// exitAvoiding: some path leads from just after `from` to a function exit
+// without executing `avoid`.
+func (f *FCFG) exitAvoiding(from, avoid ast.Node) bool {
+	lf, ok1 := f.Locate(from)
+	la, ok3 := f.Locate(avoid)
+	if !ok1 {
+		return true
+	}
+	type st struct {
+		b *cfg.Block
+		i int
+	}
+	seen := map[*cfg.Block]bool{}
+	work := []st{{lf.B, lf.I + 1}}
+	for len(work) > 0 {
+		cur := work[len(work)-1]
+		work = work[:len(work)-1]
+		blocked := false
+		for i := cur.i; i < len(cur.b.Nodes); i++ {
+			if ok3 && cur.b == la.B && i == la.I {
+				blocked = true
+				break
+			}
+		}
+		if blocked {
+			continue
+		}
+		if len(cur.b.Succs) == 0 {
+			return true
+		}
+		for _, s := range cur.b.Succs {
+			if !seen[s] {
+				seen[s] = true
+				work = append(work, st{s, 0})
+			}
+		}
+	}
+	return false
+}
+
+// ruleRegistriesUpdatedTogether (K14): a registration method stores the new
+// element into several registries of its receiver (parallel lists, an index by
+// key).  If one of those stores executes, every other one executes too on all
+// paths (before or after it): an early return between them leaves the element
+// known to one registry and unknown to another.
+func ruleRegistriesUpdatedTogether(r *Report, rule, fn, owner string, fields []string) {
+	p := r.P
+	fi := p.MustFunc(fn)
+	r.Fn(fi)
+	info := fi.Pkg.TypesInfo
+	g := buildCFG(info, fi.Decl.Body)
+	stores := map[string]ast.Node{}
+	for _, f := range fields {
+		ast.Inspect(fi.Decl.Body, func(x ast.Node) bool {
+			as, ok := x.(*ast.AssignStmt)
+			if !ok {
+				return true
+			}
+			for _, l := range as.Lhs {
+				for {
+					l = ast.Unparen(l)
+					if ix, ok := l.(*ast.IndexExpr); ok {
+						l = ix.X
+						continue
+					}
+					break
+				}
+				if isField(info, l, owner, f) {
+					// skip lazy allocation of the registry itself
+					if len(as.Rhs) == 1 && allocates(info, as.Rhs[0], nil, "", "") {
+						if _, isAppend := as.Rhs[0].(*ast.CallExpr); !isAppend || calleeBuiltin(info, as.Rhs[0].(*ast.CallExpr)) != "append" {
+							continue
+						}
+					}
+					stores[f] = as
+				}
+			}
+			return true
+		})
+	}
+	if len(stores) != len(fields) {
+		undecidedf("%s: expected stores into %v, found %d", fn, fields, len(stores))
+	}
+	for _, a := range fields {
+		for _, b := range fields {
+			if a == b {
+				continue
+			}
+			sa, sb := stores[a], stores[b]
+			ok := g.DominatesNode(sb, sa) || !g.exitAvoiding(sa, sb)
+			r.Ob(rule, fi.Name+"/"+a+"-implies-"+b, sa.Pos(), ok, "when the element is stored into "+owner+"."+a+" it must also be stored into "+owner+"."+b+" on every path; here a path leaves the function in between (the element is listed but never fed, or fed but never listed)")
+		}
+	}
+}
+
+// ruleKVGetCopyKeepsEmptyValues (K12): in the KVReader contract a nil result of
+// Get means "key absent".  An adapter that copies the stored value must produce
+// a non-nil slice even for an empty value: make([]byte, len(v)) + copy does,
+// `append([]byte(nil), v...)` does not (it returns nil for len(v)==0 and turns
+// "present with empty value" into "absent").
+func ruleKVGetCopyKeepsEmptyValues(r *Report, rule string) {
+	p := r.P
+	n := 0
+	for _, fi := range p.flist {
+		rel := relPkg(fi.Pkg.PkgPath)
+		if !strings.HasPrefix(rel, storeBase) || fi.Decl.Body == nil || fi.Decl.Recv == nil {
+			continue
+		}
+		if fi.Obj.Name() != "Get" && fi.Obj.Name() != "MultiGet" {
+			continue
+		}
+		info := fi.Pkg.TypesInfo
+		n++
+		r.Fn(fi)
+		bad := ""
+		for _, c := range builtinCalls(info, fi.Decl.Body, "append") {
+			if !c.Ellipsis.IsValid() || len(c.Args) != 2 {
+				continue
+			}
+			a0 := ast.Unparen(c.Args[0])
+			isNilBase := isNilIdent(info, a0)
+			if conv, ok := a0.(*ast.CallExpr); ok && len(conv.Args) == 1 && isNilIdent(info, conv.Args[0]) {
+				isNilBase = true
+			}
+			if isNilBase && info.TypeOf(c) != nil && info.TypeOf(c).String() == "[]byte" {
+				bad = exprStr(c)
+			}
+		}
+		r.Ob(rule, fi.Name+"/copy-of-found-value-is-non-nil", fi.Decl.Pos(), bad == "", "`"+bad+"` yields nil for an empty stored value; nil means 'key absent' to every caller of Get (upsidedown's back index rows of field-less documents have empty values)")
+	}
+	if n < 4 {
+		undecidedf("KV Get rule matched %d adapter methods", n)
+	}
+}
+
+// ruleRosterRemovedByMembership (merge planner): each segment is planned into
+// at most one merge task.  In plan(), once a roster was chosen (and possibly
+// turned into a task) the eligible list loses exactly the roster's members
+// before the next round: eligibles = removeSegments(eligibles, <that roster>),
+// on every path to the next iteration.  (A roster may have holes - segments
+// skipped because they did not fit - so positional cuts are wrong.)
+func ruleRosterRemovedByMembership(r *Report, rule string) {
+	p := r.P
+	fi := p.MustFunc("index/scorch/mergeplan.plan")
+	r.Fn(fi)
+	info := fi.Pkg.TypesInfo
+	g := buildCFG(info, fi.Decl.Body)
+	n := 0
+	ast.Inspect(fi.Decl.Body, func(x ast.Node) bool {
+		as, ok := x.(*ast.AssignStmt)
+		if !ok || len(as.Lhs) != 1 || len(as.Rhs) != 1 {
+			return true
+		}
+		c, ok := as.Rhs[0].(*ast.CallExpr)
+		if !ok || calleeBuiltin(info, c) != "append" || len(c.Args) != 2 {
+			return true
+		}
+		// append(..., &MergeTask{Segments: X})
+		var roster types.Object
+		ast.Inspect(c.Args[1], func(y ast.Node) bool {
+			if kv, ok := y.(*ast.KeyValueExpr); ok {
+				if id, ok := kv.Key.(*ast.Ident); ok && id.Name == "Segments" {
+					roster = objOf(info, kv.Value)
+				}
+			}
+			return true
+		})
+		if roster == nil {
+			return true
+		}
+		n++
+		// enclosing loop
+		var loop *ast.ForStmt
+		for _, anc := range enclosing(fi.Decl.Body, as) {
+			if fs, ok := anc.(*ast.ForStmt); ok {
+				loop = fs
+			}
+		}
+		var removal ast.Node
+		var list types.Object
+		ast.Inspect(fi.Decl.Body, func(y ast.Node) bool {
+			a2, ok := y.(*ast.AssignStmt)
+			if !ok || len(a2.Rhs) != 1 || len(a2.Lhs) != 1 {
+				return true
+			}
+			c2, ok := a2.Rhs[0].(*ast.CallExpr)
+			if !ok || len(c2.Args) != 2 {
+				return true
+			}
+			if f := callee(info, c2); f != nil && f.Name() == "removeSegments" && objOf(info, c2.Args[1]) == roster && objOf(info, c2.Args[0]) == objOf(info, a2.Lhs[0]) {
+				removal, list = a2, objOf(info, a2.Lhs[0])
+			}
+			return true
+		})
+		ok2 := false
+		if removal != nil && loop != nil && loop.Cond != nil {
+			ok2 = !g.reachesAvoiding(as, loop.Cond, removal) && readsVar(info, loop.Cond, list)
+		} else if removal != nil && loop == nil {
+			ok2 = !g.exitAvoiding(as, removal) // straight-line code: the removal follows on every path
+		}
+		r.Ob(rule, fi.Name+"/planned-roster-leaves-the-eligible-list", as.Pos(), ok2, "after a roster becomes a merge task its members must be removed from the eligible list by membership (removeSegments(list, roster)) before the next planning round; otherwise a segment can be planned into two tasks and its documents are merged twice")
+		return true
+	})
+	if n < 1 {
+		undecidedf("%s: no merge task is appended", fi.Name)
+	}
+}
+
+// ruleOptimisedDisjunctionKeepsMin (K12): BooleanSearcher decides from
+// shouldSearcher.Min() whether its should clause is optional.  Every searcher
+// that newDisjunctionSearcher returns therefore has to carry the requested
+// min: the regular constructors receive it as an argument; the optimised
+// replacement (result of optimizeCompositeSearcher) must have it stored into
+// it before it is returned.
+func ruleOptimisedDisjunctionKeepsMin(r *Report, rule string) {
+	p := r.P
+	fi := p.MustFunc("search/searcher.newDisjunctionSearcher")
+	r.Fn(fi)
+	info := fi.Pkg.TypesInfo
+	g := buildCFG(info, fi.Decl.Body)
+	sig := fi.Obj.Type().(*types.Signature)
+	var minParam types.Object
+	for i := 0; i < sig.Params().Len(); i++ {
+		if sig.Params().At(i).Name() == "min" {
+			minParam = sig.Params().At(i)
+		}
+	}
+	if minParam == nil {
+		undecidedf("%s: parameter min not found", fi.Name)
+	}
+	n := 0
+	for _, rs := range returnsOf(fi.Decl.Body) {
+		if len(rs.Results) == 2 && !isNilIdent(info, rs.Results[1]) {
+			continue // error return
+		}
+		if len(rs.Results) == 1 {
+			if _, isCall := ast.Unparen(rs.Results[0]).(*ast.CallExpr); !isCall {
+				continue
+			}
+		}
+		n++
+		res := ast.Unparen(rs.Results[0])
+		ok, how := false, ""
+		if c, isCall := res.(*ast.CallExpr); isCall {
+			for _, a := range c.Args {
+				if objOf(info, a) == minParam {
+					ok, how = true, "passed to "+exprShort(c.Fun)
+				}
+			}
+		} else if o := objOf(info, res); o != nil {
+			// a variable: some dominating store into one of its fields (possibly through a type-asserted alias) takes min
+			ast.Inspect(fi.Decl.Body, func(x ast.Node) bool {
+				as, isAs := x.(*ast.AssignStmt)
+				if !isAs || len(as.Lhs) != 1 || len(as.Rhs) != 1 {
+					return true
+				}
+				sel, isSel := ast.Unparen(as.Lhs[0]).(*ast.SelectorExpr)
+				if !isSel || !readsVar(info, as.Rhs[0], minParam) {
+					return true
+				}
+				if !g.DominatesNode(as, rs) {
+					// allowed: the store sits under `if alias, ok := rv.(*T); ok { ... }` (only the
+					// type assertion separates it from the return)
+					if !g.ReachesFwdNode(as, rs) {
+						return true
+					}
+					rf := factsString(g.GuardsOf(rs))
+					for _, fct := range g.GuardsOf(as) {
+						if strings.Contains(rf, fct.String()) {
+							continue
+						}
+						if _, isIdent := ast.Unparen(fct.Expr).(*ast.Ident); !isIdent || !fct.Truth {
+							return true
+						}
+					}
+				}
+				base := objOf(info, sel.X)
+				if base == o {
+					ok, how = true, "stored into "+exprStr(sel)
+				}
+				// alias introduced by `ts, ok := rv.(*T)`
+				ast.Inspect(fi.Decl.Body, func(y ast.Node) bool {
+					if a2, isA2 := y.(*ast.AssignStmt); isA2 && len(a2.Rhs) == 1 {
+						if ta, isTA := ast.Unparen(a2.Rhs[0]).(*ast.TypeAssertExpr); isTA && objOf(info, ta.X) == o && len(a2.Lhs) >= 1 && objOf(info, a2.Lhs[0]) == base {
+							ok, how = true, "stored into "+exprStr(sel)+" (alias of "+o.Name()+")"
+						}
+					}
+					return true
+				})
+				return true
+			})
+		}
+		r.Ob(rule, fi.Name+"/returned-"+exprShort(res)+"-carries-min", rs.Pos(), ok, "the searcher returned here stands for a disjunction with a minimum-should-match requirement; it must carry `min` ("+how+"), because BooleanSearcher reads shouldSearcher.Min() to decide whether the should clause is optional (with Min()==0 a `must + should(min 1)` query returns documents that match no should term)")
+	}
+	if n < 3 {
+		undecidedf("%s: expected >= 3 successful returns, found %d", fi.Name, n)
+	}
+}
+
+// ruleFieldwiseEqualityComplete (K9b): a condition that decides "these two
+// values of struct type T are the same" by comparing their fields one by one
+// (a chain `a.F1 == b.F1 && a.F2 == b.F2 ...` with two or more fields) must
+// compare every field of T (method forms a.F.Equals(b.F) count).  Dropping one
+// makes distinct values collapse - e.g. term locations of different array
+// elements merged by Dedupe, after which a phrase inside one element is lost.
+func ruleFieldwiseEqualityComplete(r *Report, rule string, pkgs []string, allow map[string]string) {
+	p := r.P
+	n := 0
+	for _, pk := range pkgs {
+		for _, fi := range p.funcsInPkg(pk) {
+			if fi.Decl.Body == nil {
+				continue
+			}
+			info := fi.Pkg.TypesInfo
+			seenChain := map[ast.Expr]bool{}
+			ast.Inspect(fi.Decl.Body, func(x ast.Node) bool {
+				be, ok := x.(*ast.BinaryExpr)
+				if !ok || be.Op != token.LAND || seenChain[be] {
+					return true
+				}
+				// flatten the && chain
+				var conj []ast.Expr
+				var flat func(e ast.Expr)
+				flat = func(e ast.Expr) {
+					e = ast.Unparen(e)
+					if b, ok := e.(*ast.BinaryExpr); ok && b.Op == token.LAND {
+						seenChain[b] = true
+						flat(b.X)
+						flat(b.Y)
+						return
+					}
+					conj = append(conj, e)
+				}
+				flat(be)
+				type pair struct{ a, b string }
+				fields := map[pair]map[string]bool{}
+				var structOfPair = map[pair]*types.Struct{}
+				var nameOfPair = map[pair]string{}
+				add := func(l, rr ast.Expr) {
+					ls, ok1 := ast.Unparen(l).(*ast.SelectorExpr)
+					rs, ok2 := ast.Unparen(rr).(*ast.SelectorExpr)
+					if !ok1 || !ok2 || ls.Sel.Name != rs.Sel.Name {
+						return
+					}
+					lv, _ := info.ObjectOf(ls.Sel).(*types.Var)
+					if lv == nil || !lv.IsField() || exprStr(ls.X) == exprStr(rs.X) {
+						return
+					}
+					nt := namedOf(info.TypeOf(ls.X))
+					nt2 := namedOf(info.TypeOf(rs.X))
+					if nt == nil || nt != nt2 {
+						return
+					}
+					st, ok := nt.Underlying().(*types.Struct)
+					if !ok {
+						return
+					}
+					k := pair{exprStr(ls.X), exprStr(rs.X)}
+					if fields[k] == nil {
+						fields[k] = map[string]bool{}
+					}
+					fields[k][ls.Sel.Name] = true
+					structOfPair[k] = st
+					nameOfPair[k] = nt.Obj().Name()
+				}
+				for _, c := range conj {
+					switch e := c.(type) {
+					case *ast.BinaryExpr:
+						if e.Op == token.EQL {
+							add(e.X, e.Y)
+						}
+					case *ast.CallExpr: // a.F.Equals(b.F)
+						if sel, ok := ast.Unparen(e.Fun).(*ast.SelectorExpr); ok && len(e.Args) == 1 && (sel.Sel.Name == "Equals" || sel.Sel.Name == "Equal") {
+							add(sel.X, e.Args[0])
+						}
+					}
+				}
+				for k, fs := range fields {
+					if len(fs) < 2 {
+						continue
+					}
+					st := structOfPair[k]
+					var missing []string
+					for i := 0; i < st.NumFields(); i++ {
+						f := st.Field(i).Name()
+						if !fs[f] {
+							if _, ok := allow[nameOfPair[k]+"."+f]; ok {
+								continue
+							}
+							missing = append(missing, f)
+						}
+					}
+					sort.Strings(missing)
+					n++
+					r.Fn(fi)
+					r.Ob(rule, fi.Name+"/equality-of-"+nameOfPair[k]+"-covers-all-fields", be.Pos(), len(missing) == 0,
+						"the condition treats "+k.a+" and "+k.b+" ("+nameOfPair[k]+") as equal after comparing "+itoa(len(fs))+" fields but not "+strings.Join(missing, ", ")+": values that differ only there are merged")
+				}
+				return true
+			})
+		}
+	}
+	if n < 1 {
+		undecidedf("field-wise equality rule matched no comparison chain")
+	}
+}
+
+// ruleSearcherCountIsAnEstimate (K7): search.Searcher.Count() is an upper
+// estimate used to order children cheaply; synthetic searchers (the bitmap
+// readers built by the score-none optimisation) report 0 although they match.
+// Inside package searcher its result may be summed, compared with another
+// Count() (ordering) or delegated, but never compared with a constant to
+// decide emptiness.
+func ruleSearcherCountIsAnEstimate(r *Report, rule string) {
+	p := r.P
+	searcherIface := p.Pkg("search").Types.Scope().Lookup("Searcher").Type().Underlying().(*types.Interface)
+	n := 0
+	for _, fi := range p.funcsInPkg("search/searcher") {
+		if fi.Decl.Body == nil {
+			continue
+		}
+		info := fi.Pkg.TypesInfo
+		ast.Inspect(fi.Decl.Body, func(x ast.Node) bool {
+			c, ok := x.(*ast.CallExpr)
+			if !ok {
+				return true
+			}
+			sel, ok := ast.Unparen(c.Fun).(*ast.SelectorExpr)
+			if !ok || sel.Sel.Name != "Count" || len(c.Args) != 0 {
+				return true
+			}
+			rt := info.TypeOf(sel.X)
+			if rt == nil || !(types.Implements(rt, searcherIface) || types.Implements(types.NewPointer(rt), searcherIface)) {
+				return true
+			}
+			n++
+			r.Fn(fi)
+			ok2 := true
+			for _, anc := range enclosing(fi.Decl.Body, c) {
+				if be, isB := anc.(*ast.BinaryExpr); isB {
+					switch be.Op {
+					case token.EQL, token.NEQ, token.LSS, token.LEQ, token.GTR, token.GEQ:
+						other := be.Y
+						if len(enclosing(be.Y, c)) > 0 || ast.Unparen(be.Y) == ast.Expr(c) {
+							other = be.X
+						}
+						if tv, isT := info.Types[other]; isT && tv.Value != nil {
+							ok2 = false
+						}
+					}
+				}
+			}
+			r.Ob(rule, fi.Name+"/"+exprStr(sel.X)+".Count()-not-an-emptiness-test", c.Pos(), ok2, exprStr(c)+" is compared with a constant: Count() of a searcher is only an estimate (optimised bitmap searchers report 0 while matching documents), so deciding 'no matches' from it drops hits")
+			return true
+		})
+	}
+	if n < 8 {
+		undecidedf("searcher Count() rule matched %d uses", n)
+	}
+}
